@@ -76,6 +76,15 @@ func c15Run(x *core.Ctx) {
 					}
 				}
 			}
+			if j%4 == 3 {
+				// documents the library normally rejects (literals it cannot convert at ID/Float positions): if it ever
+				// accepts one, argument resolution must still be total
+				for _, f := range dgen.Faults {
+					if f.Name == "int-beyond-int64-for-id-or-float" {
+						f.Do(dgen.NewFCtx(r, sc.mg, doc))
+					}
+				}
+			}
 			vb, _ := json.Marshal(vars)
 			c := core.NewCase("pair", "schema", sc.src, "doc", rn.RenderDoc(doc), "expect", "valid", "modes", strings.Join(modes, ","), "values", string(vb))
 			x.Do(c, func() { c15Check(x, c) })
@@ -342,6 +351,60 @@ func c15Check(x *core.Ctx, c *core.Case) {
 				}
 			}
 		}
+		// a panic is named after its context: the recorded finding is only about custom-scalar positions
+		setPanicContext := func(args []model.Arg, defs []*model.ArgDef) {
+			custom := false
+			var at func(t *model.Type, v *model.Value) bool
+			at = func(t *model.Type, v *model.Value) bool {
+				if v == nil || t == nil {
+					return false
+				}
+				td := mg.Types[t.Base()]
+				if td == nil {
+					return false
+				}
+				if td.Kind == "scalar" && !td.BuiltIn {
+					return hasUnconvertibleNumber(v)
+				}
+				switch v.Kind {
+				case model.VList:
+					et := t
+					if t.Elem != nil {
+						et = t.Elem
+					}
+					for _, it := range v.Items {
+						if at(et, it) {
+							return true
+						}
+					}
+				case model.VObject:
+					if td.Kind == "input" {
+						for _, f := range v.Fields {
+							if fd := td.Field(f.Name); fd != nil && at(fd.Type, f.Value) {
+								return true
+							}
+						}
+					}
+				}
+				return false
+			}
+			for _, d := range defs {
+				if at(d.Type, d.Default) {
+					custom = true
+				}
+				for _, a := range args {
+					if a.Name == d.Name && at(d.Type, a.Value) {
+						custom = true
+					}
+				}
+			}
+			x.OnPanic = func(v interface{}) (string, bool) {
+				if custom && strings.Contains(fmt.Sprint(v), "strconv.Parse") {
+					return "panic:ast.arg2map:custom-scalar-number-beyond-64-bits", true
+				}
+				return "", false
+			}
+		}
 		cmp := func(where string, got map[string]interface{}, args []model.Arg, defs []*model.ArgDef) {
 			want := e.argMap(args, defs)
 			x.Count("argument_maps_checked")
@@ -373,6 +436,7 @@ func c15Check(x *core.Ctx, c *core.Case) {
 					continue
 				}
 				var got map[string]interface{}
+				setPanicContext(mds[i].Args, def.Args)
 				if x.Guard(func() { got = d.ArgumentMap(coerced) }) {
 					continue
 				}
@@ -407,6 +471,7 @@ func c15Check(x *core.Ctx, c *core.Case) {
 						continue
 					}
 					var got map[string]interface{}
+					setPanicContext(msel.Args, fd.Args)
 					if !x.Guard(func() { got = s.ArgumentMap(coerced) }) {
 						cmp(where+"/"+s.Name, got, msel.Args, fd.Args)
 					}
@@ -443,4 +508,32 @@ func c15Check(x *core.Ctx, c *core.Case) {
 	if x.WantSample() && len(c.Get("doc")) < 500 && len(c.Get("modes")) > 0 {
 		x.Sample(map[string]interface{}{"document": c.Get("doc"), "variable_modes": c.Get("modes"), "supplied_values": c.Get("values"), "verdict": "every argument map equals the reference evaluation"})
 	}
+}
+
+// hasUnconvertibleNumber: the literal holds an integer beyond int64 or a float beyond float64.
+func hasUnconvertibleNumber(v *model.Value) bool {
+	if v == nil {
+		return false
+	}
+	switch v.Kind {
+	case model.VInt:
+		_, err := strconv.ParseInt(v.Raw, 10, 64)
+		return err != nil
+	case model.VFloat:
+		_, err := strconv.ParseFloat(v.Raw, 64)
+		return err != nil
+	case model.VList:
+		for _, it := range v.Items {
+			if hasUnconvertibleNumber(it) {
+				return true
+			}
+		}
+	case model.VObject:
+		for _, f := range v.Fields {
+			if hasUnconvertibleNumber(f.Value) {
+				return true
+			}
+		}
+	}
+	return false
 }
